@@ -66,8 +66,9 @@ def run(chk, repo, tier):
         ev = exits[0]
         carried, final = ev["carried"], ev["final"]
         names = set(carried)
-        chk.ob("C16.R2", construct, "carried state is {salt, SK}", names == {"salt", "SK"}, f"carried {sorted(names)}", m.where)
-        if "salt" not in carried or "SK" not in carried:
+        chk.ob("C16.R2", construct, "only the salt (and the SK under test) is carried between attempts", {"salt"} <= names <= {"salt", "SK"},
+               f"carried {sorted(names)}", m.where)
+        if "salt" not in carried or "SK" not in final:
             continue
         init_salt, hsalt = carried["salt"]
         chk.ob("C16.R2", construct, "initial salt", init_salt == KEYGEN_SALT, f"initial salt {init_salt!r}", m.where)
